@@ -500,7 +500,14 @@ func c13World(t *testing.T, r *simcore.Run) any {
 			srcIP = map[bool]string{true: "10.9.9.9", false: "fd00:9::9"}[scV6]
 			r.Probe("mixed-address-families")
 		}
+		if scmpType != 0 && tp.Bool(1, 3, "scmp-ext") {
+			// an echo or traceroute request behind extension headers: the reply is still an SCMP
+			// message that echoes the payload
+			buildSCIONExt = 1 + tp.Intn(3, "scmp-extkind")
+			r.Probe("scmp-request-behind-extension-headers")
+		}
 		raw := buildSCION(scCliIA, scSrvIA, srcIP, scSrvIP, 41000, l4dst, segLens, scmpType, pld)
+		buildSCIONExt = 0
 		d := w.net.NewDatagram(netip.AddrPortFrom(netip.MustParseAddr(scRouterIP(0)), scRouterPort),
 			netip.AddrPortFrom(netip.MustParseAddr(scSrvIP), uint16(underlayPort)), raw, "crafted")
 		w.net.Inject(d, 40*time.Microsecond)
@@ -690,11 +697,33 @@ func buildSCION(srcIA, dstIA addr.IA, srcIP, dstIP string, srcPort, dstPort uint
 			panic(err)
 		}
 	}
+	if buildSCIONExt&1 != 0 {
+		e := slayers.EndToEndExtn{}
+		e.NextHdr = s.NextHdr
+		e.Options = append(e.Options, &slayers.EndToEndOption{OptType: 253, OptData: make([]byte, 16)})
+		if err := e.SerializeTo(buffer, opts); err != nil {
+			panic(err)
+		}
+		s.NextHdr = slayers.End2EndClass
+	}
+	if buildSCIONExt&2 != 0 {
+		h := slayers.HopByHopExtn{}
+		h.NextHdr = s.NextHdr
+		h.Options = append(h.Options, &slayers.HopByHopOption{OptType: 7, OptData: make([]byte, 6)})
+		if err := h.SerializeTo(buffer, opts); err != nil {
+			panic(err)
+		}
+		s.NextHdr = slayers.HopByHopClass
+	}
 	if err := s.SerializeTo(buffer, opts); err != nil {
 		panic(err)
 	}
 	return append([]byte(nil), buffer.Bytes()...)
 }
+
+// buildSCIONExt makes buildSCION put extension headers in front of the upper-layer header:
+// bit 0 an end-to-end extension, bit 1 a hop-by-hop extension (set around single calls).
+var buildSCIONExt int
 
 var _ = ntp.PacketLen
 var _ net.IP
